@@ -40,6 +40,9 @@ CHECKS = {
  "C11": ("fault_enumeration", "exhaustive enumeration of failing-file subsets x argument orders x targets, whole-tree snapshot oracle",
          "every ordered selection of 3 of 9 file kinds x every non-empty set of comment terminators in the holder (which makes exactly the files of those styles fail) with >= 1 failing file, information-dropping templates x targets, and every usage-error cell with the offending file in each position: failing files and siblings byte-identical, none created, healthy files annotated, exit status 1 (2 for usage errors with nothing touched)",
          "anticipated failure causes only (those the statement lists)", "4/C11"),
+ "C08": ("model_checking", "complete enumeration of line-token sequences x file-shape dimensions, structural byte-level oracle with the split known by construction",
+         "every sequence (<=3 for python/c, <=2 for 6 more styles; <=5/<=3 over 27 styles in thorough) over 9 line tokens x {none, BOM, shebang, BOM+shebang} x {LF, CRLF, CR} x final newline x {replace, --no-replace}: the new file must be core(before) + header block + core(after) with BOM/shebang first, one line-ending convention, and nothing but comment lines in the header block",
+         "mixed line endings inside one file unspecified; in single-line styles the replaced block is the maximal adjacent comment run", "4/C08"),
 }
 PENDING_REASON = "check not built yet in this session (design in DESIGN.md section 4); not claimed until its machinery exists"
 
